@@ -4,8 +4,7 @@ import Bip39V.Model.Encode
 namespace Bip39V.Model
 open Bip39V
 
-def wcGate (n : Int) : Bool :=
-  n.tmod Gen.CheckMnemonic.wcMod != Gen.CheckMnemonic.wcRem || n < Gen.CheckMnemonic.wcMin || n > Gen.CheckMnemonic.wcMax
+def wcGate (n : Int) : Bool := Gen.Gates.wcGate n
 
 /-- the word loop: look every token up, add `idx << ((wc - pos - 1) * 11)`; the first unknown token stops it -/
 def sumWords (m : Option Nat) (wc : Nat) : List Str → Nat → Nat → Except (Str × Nat) Nat
